@@ -8,23 +8,42 @@ require (
 )
 
 require (
-	github.com/dlclark/regexp2 v1.11.5 // indirect
-	github.com/fatih/color v1.18.0 // indirect
-	github.com/ghodss/yaml v1.0.0 // indirect
-	github.com/go-faster/errors v0.7.1 // indirect
-	github.com/go-faster/jx v1.1.0 // indirect
-	github.com/go-faster/yaml v0.4.6 // indirect
-	github.com/google/uuid v1.6.0 // indirect
-	github.com/mattn/go-colorable v0.1.13 // indirect
-	github.com/mattn/go-isatty v0.0.20 // indirect
-	github.com/segmentio/asm v1.2.0 // indirect
-	go.uber.org/multierr v1.11.0 // indirect
-	go.uber.org/zap v1.27.0 // indirect
-	golang.org/x/exp v0.0.0-20230725093048-515e97ebf090 // indirect
-	golang.org/x/net v0.39.0 // indirect
-	golang.org/x/sys v0.32.0 // indirect
-	golang.org/x/text v0.24.0 // indirect
-	gopkg.in/yaml.v2 v2.4.0 // indirect
+	github.com/davecgh/go-spew v1.1.1
+	github.com/dlclark/regexp2 v1.11.5
+	github.com/fatih/color v1.18.0
+	github.com/ghodss/yaml v1.0.0
+	github.com/go-faster/errors v0.7.1
+	github.com/go-faster/jx v1.1.0
+	github.com/go-faster/yaml v0.4.6
+	github.com/google/uuid v1.6.0
+	github.com/mattn/go-isatty v0.0.20
+	github.com/stretchr/testify v1.10.0
+	github.com/valyala/fasthttp v1.60.0
+	go.opentelemetry.io/otel v1.35.0
+	go.opentelemetry.io/otel/metric v1.35.0
+	go.opentelemetry.io/otel/sdk v1.35.0
+	go.opentelemetry.io/otel/sdk/metric v1.35.0
+	go.opentelemetry.io/otel/trace v1.35.0
+	go.uber.org/multierr v1.11.0
+	go.uber.org/zap v1.27.0
+	golang.org/x/exp v0.0.0-20230725093048-515e97ebf090
+	golang.org/x/net v0.39.0
+	golang.org/x/sync v0.13.0
+	golang.org/x/text v0.24.0
+	golang.org/x/tools v0.32.0
+	github.com/andybalholm/brotli v1.1.1
+	github.com/go-logr/logr v1.4.2
+	github.com/go-logr/stdr v1.2.2
+	github.com/klauspost/compress v1.18.0
+	github.com/mattn/go-colorable v0.1.13
+	github.com/pmezard/go-difflib v1.0.0
+	github.com/segmentio/asm v1.2.0
+	github.com/valyala/bytebufferpool v1.0.0
+	go.opentelemetry.io/auto/sdk v1.1.0
+	golang.org/x/mod v0.24.0
+	golang.org/x/sys v0.32.0
+	gopkg.in/yaml.v2 v2.4.0
+	gopkg.in/yaml.v3 v3.0.1
 )
 
 replace github.com/ogen-go/ogen => /repo
